@@ -642,6 +642,18 @@ func (c *FnCtx) declareBox(t types.Type) (bx, ub string) {
 	return
 }
 
+// zeroBox is the interface value that holds the (only) value of a zero-size struct type.
+func (c *FnCtx) zeroBox(t types.Type) string {
+	c.declareFun("dyntype", []string{"Int"}, "Int")
+	n := sym("zbox|" + typeName(t))
+	if !c.declared[n] {
+		c.declare(n, "Int")
+		c.addGlobalFact("(> " + n + " 0)")
+		c.addGlobalFact(eq("(dyntype "+n+")", c.typeID(t)))
+	}
+	return n
+}
+
 func (c *FnCtx) makeInterface(st *State, v Val, it types.Type) Val {
 	c.declareFun("dyntype", []string{"Int"}, "Int")
 	tid := c.typeID(v.T)
@@ -656,6 +668,10 @@ func (c *FnCtx) makeInterface(st *State, v Val, it types.Type) Val {
 		}
 		c.boxed[t] = v
 		return Val{T: it, K: KIface, S: t}
+	}
+	if v.K == KStruct && len(v.F) == 0 {
+		// all values of a zero-size struct type are equal: one interface value per type
+		return Val{T: it, K: KIface, S: c.zeroBox(v.T)}
 	}
 	// composite: box through a fresh cell holding the value
 	r := c.allocRef(st, "ifacebox")
